@@ -65,6 +65,7 @@ type simClient struct {
 	handshaken  bool
 	readerDone  bool
 	closeCode   int
+	everStalled bool // a fault made this client stop reading for a while (the server may rightly give up on it)
 	closeText   string
 	cutByUs     bool
 	closedByUs  bool
